@@ -5,6 +5,7 @@ CONSTANTS
   Periodic = FALSE
   DeleteByName = FALSE
   ClaimIgnoresCancel = FALSE
+  PrefixCancellers = {}
   DropOnClaim = FALSE
   MaxRuns = 1
   ScenLen = 16
